@@ -73,6 +73,11 @@ MonInit == l = 1 /\ M = InitM
 MonNext == l <= Len(Rec) /\ l' = l + 1 /\ M' = Step(M, Rec[l], l)
 MonSpec == MonInit /\ [][MonNext]_<<l, M>>
 
+\* attribution: each property is judged on its own complaints only
+C04Bad == {"a process was spawned while the previous one had not been reaped", "the job task did not end normally"}
+C07Bad == {"a ticket never resolved"}
+MonMtC04 == M.bad \cap C04Bad = {}
+MonMtC10 == M.bad \ (C04Bad \cup C07Bad) = {}
 MonMt == M.bad = {}
 
 MonDone ==
